@@ -60,6 +60,8 @@ def ex(n):
         return n["referencedDecl"]["name"]
     if k == "IntegerLiteral":
         return n["value"]
+    if k == "CXXBoolLiteralExpr":
+        return "true" if n.get("value") else "false"
     if k == "SubstNonTypeTemplateParmExpr":
         return "N"
     if k == "UnaryOperator" and n["opcode"] == "*" and strip(n["inner"][0])["kind"] == "CXXThisExpr":
